@@ -102,16 +102,19 @@ Section Levels.
         end
     end.
 
-  Fixpoint p_oplist (n : nat) (k : token) : P oplist :=
+  (** [cnt]: operators of this run seen so far; the run (operators plus the
+      call that sees its end) may be at most 256 calls deep *)
+  Fixpoint p_oplist (n : nat) (k : token) (cnt : Z) : P oplist :=
     match n with
     | O => fun _ => PFuel
     | S n' =>
+        if 256 <=? cnt then fail_here else
         let! o := peek in
         match o with
         | Some t =>
             if token_eqb (t_tok t) k then
               let! _ := next in
-              let! tail := p_oplist n' k in
+              let! tail := p_oplist n' k (cnt + 1) in
               pret (OLCons (surrounding (oplist_range tail) (t_loc t)) tail)
             else let! l := here in pret (OLEmpty (mkRange l l))
         | None => let! l := here in pret (OLEmpty (mkRange l l))
@@ -248,11 +251,11 @@ Section Levels.
     let! o := peek in
     match tok_of o with
     | Some TNot =>
-        fun t => (let! nots := p_oplist (loop_fuel t) TNot in
+        fun t => (let! nots := p_oplist (loop_fuel t) TNot 0 in
                   let! m := p_member in
                   pret (UnNot (surrounding (oplist_range nots) (member_range m)) nots m)) t
     | Some TMinus =>
-        fun t => (let! negs := p_oplist (loop_fuel t) TMinus in
+        fun t => (let! negs := p_oplist (loop_fuel t) TMinus 0 in
                   let! m := p_member in
                   pret (UnNeg (surrounding (member_range m) (oplist_range negs)) negs m)) t
     | _ => let! m := p_member in pret (UnMember (member_range m) m)
@@ -374,17 +377,21 @@ End Levels.
 
 (** parse_expression with explicit recursion depth; f-string segments are
     parsed by a fresh tokenizer at the same depth budget. *)
-Fixpoint p_expr (fuel : nat) : P expr :=
+(** [depth]: expressions this one is nested in (MAX_EXPRESSION_NESTING = 32 levels may be open at once) *)
+Fixpoint p_expr_at (fuel : nat) (depth : Z) : P expr :=
   match fuel with
   | O => fun _ => PFuel
   | S f =>
-      p_expr_body (p_expr f)
-        (fun s => match p_expr f (tz_init s) with
+      if 32 <=? depth then fail_here else
+      p_expr_body (p_expr_at f (depth + 1))
+        (fun s => match p_expr_at f (depth + 1) (tz_init s) with
                   | POk _ t => POk tt t
                   | PErr l => PErr l
                   | PFuel => PFuel
                   end)
   end.
+
+Definition p_expr (fuel : nat) : P expr := p_expr_at fuel 0.
 
 (** CelCompiler::compile: one expression, then end of input. *)
 Definition parse_program (fuel : nat) (src : chars) : pres expr :=
